@@ -105,6 +105,11 @@ def run(ctx):
                 ctx.violation("unit-edge", f"non-isolated sample {i} has maximum strength {S[i].max()} < 1", case)
                 break
         far = 2.5 / (1.0 - w) if w < 1.0 else 1.0e12
+        # float32 underflow shim: the implementation's weights are float32, so exp(-far) is exactly 0 once far > ~103
+        # (e.g. target_weight = 0.99, far = 250) while float64 would keep 1e-109 and re-normalise it to ~1
+        if far > 103.0:
+            far = 1.0e12
+            ctx.bin("float32_underflow_shim", True)
         toks = ["catint", f2b(1.0), f2b(far)] + label_tokens(y) + coo_tokens(unsup)
         h = drv.add(*toks)
         pend.append((h, g, {k_: v for k_, v in case.items() if k_ != "X"}, 2e-6))
